@@ -215,9 +215,9 @@ def env_for(task: dict) -> dict:
     if isinstance(scen, dict) and isinstance(scen.get("_env"), dict):
         return scen["_env"]
     if os.environ.get("KIO_VERIF_NO_ENV_SWARM"):
-        return {"tz": ENV_TZ[0], "gc": "default"}
+        return {"tz": ENV_TZ[0], "gc": "default", "optimize": int(sys.flags.optimize)}
     rng = random.Random(derive_seed("env", canon(task)[:4000]))
-    return {"tz": rng.choice(ENV_TZ), "gc": rng.choice(ENV_GC)}
+    return {"tz": rng.choice(ENV_TZ), "gc": rng.choice(ENV_GC), "optimize": int(sys.flags.optimize)}
 
 
 def apply_env(env: dict) -> None:
